@@ -240,6 +240,40 @@ fn gen_c04(r: &mut Prng, i: u64, _t: Tier) -> Plan {
     }
     p
 }
+/// third family: the premise of C04 is about streams only -- the receiving application reads its
+/// streams and accepts new ones but never picks up datagrams, while the peer sends more datagrams
+/// than the datagram buffer holds
+fn gen_c04_unread_dgrams(r: &mut Prng, i: u64, t: Tier) -> Plan {
+    let mut p = gen_c04(r, i, t);
+    for e in &mut p.eps {
+        e.dgram_buf = 1 + r.below(4);
+    }
+    // a stream that is opened only after the flood
+    let mut late = gen_stream(r, &BURST);
+    late.delay = 30 + r.below(60);
+    p.streams.push(late);
+    for from in 0..2 {
+        if from == 1 && r.chance(1, 2) {
+            continue;
+        }
+        let n = p.eps[1 - from].dgram_buf + 1 + r.below(6);
+        let items = (0..n).map(|_| DgItem { flow: r.next() as u32, hlen: r.below(10), port: r.next() as u16, len: 4 + r.below(20), yields: r.below(3) }).collect();
+        p.dg_tx.push(DgTx { from, items });
+    }
+    p
+}
+fn x_c04_unread(r: &DuoRun, _wm: &WireModel, ei: &EndInfo, o: &mut Outcome) {
+    if ei.any_fault {
+        return;
+    }
+    let led = r.led.borrow();
+    for from in 0..2 {
+        let acc = led.dg.sent[from].iter().filter(|x| x.2.is_ok()).count();
+        if acc > r.plan.eps[1 - from].dgram_buf {
+            o.probe("datagram-buffer-overflowed-unread", 1);
+        }
+    }
+}
 /// second family: one stream whose reader is absent or stops early, beside a served stream,
 /// a fresh stream request and a datagram exchange
 fn gen_c04_starved(r: &mut Prng, _i: u64, _t: Tier) -> Plan {
@@ -303,8 +337,9 @@ pub fn c04() -> Check {
     duo_check(
         "C04",
         "exploration",
-        vec![Box::new(sweep), fam("starved", 150000, 1_000_000, gen_c04_starved, OracleCfg::default(), Some(x_c04_starved), nt_c04, "one stream whose reader is absent or stops after one frame (kept alive, so no Reset unblocks it) beside a normally served stream, a stream opened later and datagram exchanges in both directions: only the starved stream's writer may pend at quiescence.")],
-        vec!["writer-parked-on-credit", "starved-writer-parked"],
+        vec![Box::new(sweep), fam("starved", 150000, 1_000_000, gen_c04_starved, OracleCfg::default(), Some(x_c04_starved), nt_c04, "one stream whose reader is absent or stops after one frame (kept alive, so no Reset unblocks it) beside a normally served stream, a stream opened later and datagram exchanges in both directions: only the starved stream's writer may pend at quiescence."),
+            fam("unread-datagrams", 60000, 600_000, gen_c04_unread_dgrams, OracleCfg::default(), Some(x_c04_unread), nt_c04, "the `pairs` workload plus a stream opened later, while each side's application never calls get_datagram and the peer sends more datagrams than the 1-4 slot datagram buffer holds: reading streams and accepting is all the premise asks of the receiving application, so every stream write must still complete, every byte become readable and the late open succeed.")],
+        vec!["writer-parked-on-credit", "starved-writer-parked", "datagram-buffer-overflowed-unread"],
     )
 }
 
@@ -434,6 +469,60 @@ fn gen_c06(r: &mut Prng, _i: u64, t: Tier) -> Plan {
     }
     p
 }
+/// early reuse: endpoint 0 aborts a stream and immediately opens another one with the SAME flow id
+/// (scripted ids), while endpoint 1's application still holds its object of the aborted stream
+/// and lets go of it only later. "Dropping a stream ... all other streams keep their data and
+/// state": the new stream must not be touched by the late drop of the old object.
+fn gen_c06_early_reuse(r: &mut Prng, _i: u64, _t: Tier) -> Plan {
+    let mut p = base_plan(r);
+    p.eps[0].ids = vec![CYCLE_ID; 12];
+    p.eps[0].retries = 12;
+    let x = r.below(2); // which side of the old stream aborts first (0 = the opener)
+    // The old stream carries no data and the lingering side lets go only after it has seen the
+    // abort (EOF): then no frame of the old incarnation is in flight when the id is re-used.
+    // (Frames of an old incarnation that are still in flight when its id is re-used are
+    // indistinguishable from frames of the new one on the wire -- a limit of the protocol, not of
+    // this implementation, and not what this family judges.)
+    let first = SidePlan { w: vec![WOp::Drop], r: vec![], hold: false };
+    let linger = 1 + r.below(60);
+    let last = SidePlan { w: vec![], r: vec![ROp::ReadEof { buf: 8 }, ROp::Yield(linger), ROp::Drop], hold: false };
+    let sides = if x == 0 { [first, last] } else { [last, first] };
+    p.streams.push(StreamPlan { opener: 0, port: 1, pad: 0, delay: 0, after: None, raw_host: None, sides });
+    // the new stream under the same id, opened while the old object still exists somewhere
+    let mut s = gen_stream(r, &CLEAN);
+    s.opener = 0;
+    s.delay = 1 + r.below(30);
+    s.after = None;
+    p.streams.push(s);
+    if r.chance(1, 2) {
+        let mut b = gen_stream(r, &CLEAN);
+        b.opener = 1;
+        p.streams.push(b);
+    }
+    p
+}
+fn x_c06_early(r: &DuoRun, _wm: &WireModel, ei: &EndInfo, o: &mut Outcome) {
+    if ei.any_fault {
+        return;
+    }
+    // any disturbance of the new stream or the bystander is this property's "all other streams keep
+    // their data and state" (the clauses below belong to other properties when seen elsewhere)
+    let hit: Vec<String> = o.violations.iter().filter(|v| ["C03:reset-unexplained", "C07:ghost-accept", "C05:eof-unjustified", "C05:eof-before-data", "C02:eof-equality", "C04:stall-write", "C04:stall-read", "C04:open-stall", "C04:eof-stall", "C07:open-error"].contains(&v.class.as_str())).map(|v| format!("{}: {}", v.class, v.msg)).collect();
+    if let Some(h) = hit.first() {
+        o.violate("C06:other-stream-disturbed", format!("a stream object of an aborted stream was dropped after its flow id had been re-used, and another stream was disturbed: {h}"));
+    }
+    let led = r.led.borrow();
+    let l = r.link.lock().unwrap();
+    // did the second stream really get the id of the first while an old object was alive?
+    let ids: Vec<(u64, u32)> = l.evs.iter().filter(|e| e.stage == Stage::Consumed && e.from == 0).filter_map(|e| match &*e.w { Wire::Frame(RFrame::Connect { id, .. }) => Some((e.seq, *id)), _ => None }).collect();
+    let (Some(a), Some(b)) = (led.streams.first(), led.streams.get(1)) else { return };
+    let old_dropped_last = a.sides.iter().filter_map(|sd| sd.dropped).max();
+    if let (Some(d), Some(c2)) = (old_dropped_last, ids.iter().filter(|c| c.1 == CYCLE_ID).nth(1)) {
+        if c2.0 < d && b.sides[1].got_stream.is_some() {
+            o.probe("id-reused-while-old-object-alive", 1);
+        }
+    }
+}
 fn x_c06(r: &DuoRun, _wm: &WireModel, ei: &EndInfo, o: &mut Outcome) {
     if ei.any_fault || r.plan.eps[0].ids.is_empty() {
         return;
@@ -476,8 +565,9 @@ pub fn c06() -> Check {
     duo_check(
         "C06",
         "exploration",
-        vec![fam("cycles", 100000, 600_000, gen_c06, OracleCfg::default(), Some(x_c06), nt_c06, "1..30 open/transfer/close cycles on one connection with every close style per side (finish+read to EOF, abort after traffic, abort at once, shutdown then drop unread, reader drops mid-way) while bystander streams carry checked traffic; a scripted flow-id RNG forces each re-open to use the same id, only after both applications dropped the previous stream and the system went quiescent. Oracles: peer of an aborted stream reads a prefix then EOF and its later writes fail; exactly one Connect(X)/Acknowledge(X) per re-open, no Reset; byte/credit models of the new stream start fresh; black-box leak probe (Acknowledge(id,0) for every id ever used must draw a Reset). Non-trivial: >=2 streams released by both ends and a Reset crossed the wire.")],
-        vec!["same-id-reopened", "leak-probes", "reset-on-wire"],
+        vec![fam("cycles", 100000, 600_000, gen_c06, OracleCfg::default(), Some(x_c06), nt_c06, "1..30 open/transfer/close cycles on one connection with every close style per side (finish+read to EOF, abort after traffic, abort at once, shutdown then drop unread, reader drops mid-way) while bystander streams carry checked traffic; a scripted flow-id RNG forces each re-open to use the same id, only after both applications dropped the previous stream and the system went quiescent. Oracles: peer of an aborted stream reads a prefix then EOF and its later writes fail; exactly one Connect(X)/Acknowledge(X) per re-open, no Reset; byte/credit models of the new stream start fresh; black-box leak probe (Acknowledge(id,0) for every id ever used must draw a Reset). Non-trivial: >=2 streams released by both ends and a Reset crossed the wire."),
+            fam("early-reuse", 60000, 600_000, gen_c06_early_reuse, OracleCfg::default(), Some(x_c06_early), nt_c06, "one side aborts a stream and the requester at once opens a new stream with the SAME flow id (scripted ids) while the other application still holds its object of the aborted stream and drops it 1-60 scheduling rounds later; a bystander stream alongside. The new stream is another stream: the late drop must neither reset it nor take its data (general oracles: unexplained Reset, unjustified EOF, spurious write failure, stalls).")],
+        vec!["same-id-reopened", "leak-probes", "reset-on-wire", "id-reused-while-old-object-alive"],
     )
 }
 
@@ -592,11 +682,13 @@ fn gen_c15(r: &mut Prng, _i: u64, _t: Tier) -> Plan {
         p.dg_rx.push(DgRx { ep: 1 - tx.from, pace: vec![r.below(3)], take: None });
         p.dg_tx.push(tx);
     }
-    // the connection may end first: then `false` or Closed are the only legal answers
-    if r.chance(1, 5) {
+    // the connection may end first: then `false` or Closed are the only legal answers, also for
+    // requests made after the end
+    if r.chance(1, 4) {
         let kind = gen_end_cause(r);
         let span = *r.pick(&[10usize, 40, 150]);
         p.faults.push(Fault { at: r.below(span) as u64, kind });
+        p.late_ops = true;
     }
     p
 }
@@ -654,7 +746,7 @@ pub fn c15() -> Check {
             fam("binds", 200000, 2_000_000, gen_c15, OracleCfg::default(), Some(x_c15), nt_c15, "1-6 concurrent request_bind calls from either side (types 1/3, hosts 0..200 bytes, all ports) against a peer with binds disabled or a buffer of 1..16; responder applications answer in a seeded order with accept / reject / drop / hold forever / accept later (out of order), with or without dropping the request object after the reply; stream and datagram traffic alongside. Each call's result is matched to what the responder was shown through a unique host string; flow ids are read off the wire. Non-trivial: a request was shown to the peer application and a call resolved."),
             fam("id-reuse", 200000, 2_000_000, gen_c15_reuse, OracleCfg { accountant: false, ..OracleCfg::default() }, Some(x_c15_reuse), nt_c15, "both endpoints draw flow ids for binds and streams from a scripted space of 2-6 values, so that ids of answered binds are re-used at once by streams of either side; all streams are kept open. Any disturbance of such a stream (ghost accept, unjustified EOF, spurious write failure, stall) is a violation."),
         ],
-        vec!["bind-accepted", "bind-refused", "bind-answered-out-of-order", "bind-disabled-peer"],
+        vec!["bind-accepted", "bind-refused", "bind-answered-out-of-order", "bind-disabled-peer", "late-call-after-end"],
     )
 }
 
@@ -865,6 +957,7 @@ fn gen_c08_workload(r: &mut Prng) -> Plan {
     // both applications keep accepting (possibly slowly): a peer whose connection task is wedged
     // behind an application that never accepts cannot answer Close and is outside C08's premise
     p.accept_pace = r.below(4);
+    p.late_ops = r.chance(1, 2);
     p
 }
 fn gen_end_cause(r: &mut Prng) -> FaultKind {
@@ -1034,7 +1127,7 @@ pub fn c08() -> Check {
             Box::new(sweep),
             fam("backlog", 100_000, 2_000_000, gen_c08_backlog, OracleCfg::default(), Some(x_c08), nt_c08, "the endpoint whose transport fails (sink error with a live or silent source, invalid frame, source error) runs no acceptor: its accept backlog (1-2 slots) is full and further Connect frames of the peer are in flight or buffered when the failure hits; its parked reader, get_datagram and open calls must still resolve and its task must return."),
         ],
-        vec!["end-with-pending-operations", "end-while-writer-parked", "end-while-open-pending", "end-while-bind-pending", "drop-with-queued-frames", "fault:cut", "fault:peer-close", "fault:garbage", "fault:drop-mux"],
+        vec!["late-call-after-end", "end-with-pending-operations", "end-while-writer-parked", "end-while-open-pending", "end-while-bind-pending", "drop-with-queued-frames", "fault:cut", "fault:peer-close", "fault:garbage", "fault:drop-mux"],
     )
 }
 use crate::link::{Stage, Wire};
